@@ -61,7 +61,7 @@ PROPS = {
     "C13": {"level": "exploration", "arms": [A("dd-history", 20000, 800000), A("dd-history-narrow", 20000, 800000), A("seq-free", 20000, 800000), A("par-free", 15000, 600000), A("width-grid", 3000, 30000)],
             "probes": ["mon_layers_checked", "mon_layers_at_width"],
             "rule": "number of for_each_in_domain calls between two next_variable calls on one worker, compared with the width in force, for every bounded layer of every restricted / relaxed compilation of all-relevant models; the combinator clause (Times, DivBy never yield 0) is a pure function evaluated on a grid inside the same check and is not a simulation result"},
-    "C14": {"level": "exploration", "arms": [A("seq-primal", 40000, 1500000), A("par-primal", 40000, 1500000)],
+    "C14": {"level": "exploration", "arms": [A("seq-primal", 40000, 1500000), A("par-primal", 40000, 1500000), A("seq-primal-cache", 80000, 1500000), A("par-primal-cache", 40000, 1000000)],
             "probes": ["fault:primal_seed", "primal_equals_optimum", "probe:>=2_workers_compiling_at_once"],
             "rule": RULE_SOLVER + "; before maximize() one or two set_primal calls with witnesses of the reference model (optimum, optimum - 1, optimum - d, random feasible)"},
     "C15": {"level": "exploration", "arms": [A("seq-longarc", 8000, 120000), A("par-longarc", 4000, 40000), A("seq-longarc-plain", 4000, 60000)],
